@@ -211,6 +211,12 @@ def interp(W, p):
     clause = "packed" if p.get("packed") else "velocity"
     W.prove(W.any([W.all([W.eq(got_u, eu), W.eq(got_v, ev), W.eq(var_u, eu), W.eq(var_v, ev)]) for eu, ev, _ in res]), clause, dict(cells=[r[2][:2] for r in res], sub=p["sub"]))
     W.prove(W.any([W.any([W.eq(got_T, t) for t in r[2][2]]) for r in res]), "packed" if p.get("packed") else "scalar", dict(cells=[r[2][:2] for r in res]))
+    if p.get("two"):
+        # the other particle (first in the arrays) is removed after update(): a velocity request for the survivor alone must give
+        # the survivor's own velocity (per-particle arrays cached by update() must not be handed to another particle)
+        Xs, Ys, Zs = W.tolist(S.X), W.tolist(S.Y), W.tolist(S.Z)
+        U1, V1 = F.velocity(W.arr(Xs[idx:idx + 1], "f"), W.arr(Ys[idx:idx + 1], "f"), W.arr(Zs[idx:idx + 1], "f"))
+        W.prove(W.all([W.eq(W.tolist(U1)[0], got_u), W.eq(W.tolist(V1)[0], got_v)]), p.get("removal_clause", "velocity"), dict(note="velocity of the survivor after the other particle was removed since update()", sub=p["sub"]))
     return tuple(r[2][:2] + r[2][3] for r in res)
 
 
